@@ -93,11 +93,13 @@ def o_termination(case, rec):
     if rec.status == DONE:
         return []
     pend = [i for i, o in enumerate(rec.outcomes) if o[0] == 'pending']
+    # a run that never ends also never delivers what the construct-specific properties promise
+    props = {'C02'} | construct_props(case['spec'])
     if rec.status == QUIESCENT:
-        return [Violation({'C02'}, 'deadlock',
+        return [Violation(props, 'deadlock',
                           f'loop idle, no gate/timer outstanding, runs {pend} still pending after '
                           f'{rec.steps} handles')]
-    return [Violation({'C02'}, 'livelock', f'step cap hit after {rec.steps} handles, runs {pend} pending')]
+    return [Violation(props, 'livelock', f'step cap hit after {rec.steps} handles, runs {pend} pending')]
 
 
 def o_outcome(case, rec, ref, run=0, cancelled=False):
@@ -197,6 +199,8 @@ def o_calls(case, rec, ref, view: RunView, complete=True):
                 props.add('C10')
             if 'Rec' in marks or nodes[node].get('add_data') or 'Rec' in features(spec):
                 props.add('C11')
+            if bad == ':exception_as_argument':
+                props |= cp     # "failures are never delivered to a consumer as a value" (C10)
             vs.append(Violation(props, 'wrong_arguments' + bad,
                                 f'{node} invoked with {dict(kw)}; reference digests {sorted(ref_by_node[node])}',
                                 view.run))
